@@ -626,4 +626,15 @@ def forwarding(repo, chk):
     for c in cs2:
         a2 = bind_args(c, nm).get(ratio)
         ok2 = ok2 and a2 is not None and term_of(cf, a2, inline=True) == want2
+    if not cs2:
+        # the scorer may be reached through a table of small scorer functions: every call of numba_mi in the module must then pass the
+        # configured ratio of ITS run configuration (the attribute mi_stratified_sampling_ratio of one of its parameters)
+        elsewhere = [(f_, c) for f_ in m.funcs.values() if f_ is not nm for c in calls(f_) if m.dotted(c.func) == f'{IE}.numba_mi']
+        if elsewhere:
+            ok2 = True
+            for f_, c in elsewhere:
+                a2 = bind_args(c, nm).get(ratio)
+                t2 = term_of(f_, a2, inline=True) if a2 is not None else None
+                ok2 = ok2 and t2 is not None and t2[0] == 'attr' and t2[2] == 'mi_stratified_sampling_ratio' and t2[1][0] == 'name' and t2[1][1] in f_.params
+            cs2 = [c for _f, c in elsewhere]
     chk.expect(ok2, 'C04.7f', 'R6', cf.site(cs2[0]) if cs2 else cf.site(), ast.unparse(cs2[0]) if cs2 else 'numba_mi(...)', '--mi_stratified_sampling_ratio reaches numba_mi', 'conduct_feature_ranking must forward args.mi_stratified_sampling_ratio to numba_mi')
